@@ -13,6 +13,7 @@ import os
 
 from jsonargparse import Namespace
 
+from vf.fixtures import zoo
 from vf.checks import c01
 from vf.gen import parsers as P
 from vf.gen import types as G
@@ -385,6 +386,39 @@ def differing_value_class(cfg, steps):
     return "+".join(sorted(out))
 
 
+def case_class_defaults(ctx, i, rng):
+    """class-typed arguments that have a default spec, given partial settings (only init_args, only dict_kwargs, the same
+    class again): every channel completes them from the default in the same way"""
+    from jsonargparse import lazy_instance
+
+    wdk = "vf.fixtures.zoo.WithDictKwargs"
+    spec = dict(
+        args=[
+            dict(name="m", t=G.CLASS_T, default={"class_path": wdk, "init_args": {"a": rng.randrange(9)}, "dict_kwargs": {"d0": 0}}, required=False),
+            dict(name=rng.choice(["n", "grp.n"]), t=G.CLASS_T, default=lazy_instance(zoo.SubA, a=5), required=False),
+            dict(name="k", t=G.INT, default=1, required=False),
+        ],
+        cfg=True, mode="yaml", env=False, prog="app", sub=None,
+    )
+    o = call(P.build, spec, env_prefix="APP")
+    if not o.accepted:
+        ctx.inconclusive(f"class-defaults parser not built: {o.brief()}")
+        return
+    p = o.value
+    nname = spec["args"][1]["name"]
+    inputs = {}
+    r = rng.random()
+    if r < 0.7:
+        inputs["m"] = rng.choice([{"class_path": wdk, "dict_kwargs": {"z": 1}}, {"dict_kwargs": {"z": 2}}, {"init_args": {"a": 3}}, {"class_path": wdk, "init_args": {"a": 4}}])
+    if r > 0.3:
+        inputs[nname] = rng.choice([{"init_args": {"b": "q"}}, {"init_args": {"a": 7}}, {"class_path": "vf.fixtures.zoo.SubA", "init_args": {"b": "w"}}])
+    types = P.arg_types(spec)
+    outs = run_channels(ctx, spec, p, inputs, ctx.workdir, i, (), types=None)
+    ctx.evaluation(("c05-class-defaults", tuple(sorted((k, tuple(sorted(v))) for k, v in inputs.items()))))
+    ctx.count("st.partial_class_settings_over_default_spec")
+    compare(ctx, spec, outs, inputs, types, "channels")
+
+
 def run_shard(ctx):
     for k in list(os.environ):
         if k.startswith("APP_"):
@@ -392,5 +426,7 @@ def run_shard(ctx):
     for i, rng in ctx.cases():
         if i % 3 == 2:
             case_modes(ctx, i, rng)
+        elif i % 12 == 1:
+            case_class_defaults(ctx, i, rng)
         else:
             case_channels(ctx, i, rng)
